@@ -17,7 +17,8 @@ RULE = ("Game strings from a layout grammar (interior up to 4x4 / 5x4 thorough, 
         "parser and per-successor constraint checker; natural join / mixture on exact Fractions. Non-trivial: a layout "
         "where some joint action makes the agents contend for a cell or swap, or where a wall / fence / obstacle is "
         "adjacent to an agent in a visited state; factor tables sharing a variable; distinct by spec hash."
-        ' Also: three-player games (125 joint actions), 11-13-column corridors, factor-table variables that are leaf paths of nested rows with partially overlapping nesting.')
+        ' Also: three-player games (125 joint actions), 11-13-column corridors, factor-table variables that are leaf paths of nested rows with partially overlapping nesting.'
+        ' collision_prob 0.5.')
 ASSUMPTIONS = ["reachable states are capped per layout (40 quick, 150 thorough); all 25 joint actions of every visited "
                "state are enumerated"]
 
